@@ -3,6 +3,7 @@ package dicescript
 import (
 	"errors"
 	"strconv"
+	"strings"
 )
 
 type ParserData struct {
@@ -337,7 +338,13 @@ func fixCodeByOffset(code []ByteCode, offset int) {
 	}
 }
 
+// trimExprText 去掉表达式原文末尾被解析器顺带吃掉的空白: 这些空白属于后续文本，保存下来的原文不应随后续文本而变化
+func trimExprText(text string) string {
+	return strings.TrimRight(text, " \t\n\r")
+}
+
 func (p *ParserData) AddStoreComputed(name string, text string) {
+	text = trimExprText(text)
 	code, length, offset := p.CodePop()
 	fixCodeByOffset(code, offset)
 	val := NewComputedValRaw(&ComputedData{
@@ -351,6 +358,7 @@ func (p *ParserData) AddStoreComputed(name string, text string) {
 }
 
 func (p *ParserData) AddStoreComputedOnStack(text string) {
+	text = trimExprText(text)
 	code, length, offset := p.CodePop()
 	fixCodeByOffset(code, offset)
 	val := NewComputedValRaw(&ComputedData{
